@@ -62,6 +62,9 @@ type Writers struct {
 	// per-step observers (called inside Do, before and after the action)
 	OnRestart []func(w *Writers, i int)
 	OnClose   []func(w *Writers)
+	// Pumps let slow subscribers of the harness read while a write call is still in progress (a write may
+	// block on a full subscriber buffer); each returns whether it made progress
+	Pumps []func(w *Writers) bool
 	Before    []func(w *Writers, action string)
 	After     []func(w *Writers, action string)
 	// differential memory shared by all worlds of one search
@@ -476,7 +479,25 @@ func (w *Writers) Do(a string) error {
 		}
 		before := w.Stores[i].OpLog().Len()
 		refused := op.Refused != nil && op.Refused(w, i)
-		err := op.Do(w.Stores[i])
+		st := w.Stores[i]
+		call := async(a, func() error { return op.Do(st) })
+		for round := 0; ; round++ {
+			if qerr := sim.Quiesce(); qerr != nil {
+				return qerr
+			}
+			if call.finished() {
+				break
+			}
+			progress := false
+			for _, p := range w.Pumps {
+				progress = p(w) || progress
+			}
+			if !progress || round > 256 {
+				w.pending = append(w.pending, explore.Violation{Signature: "write-call-never-returns:" + opClass(name), Detail: fmt.Sprintf("%s has not returned although the world is quiescent and every subscriber has read what it was given", a)})
+				return fmt.Errorf("write %s blocked", a)
+			}
+		}
+		err := call.err
 		if refused {
 			if err == nil {
 				w.pending = append(w.pending, explore.Violation{Signature: "refusal-missing:" + opClass(name), Detail: fmt.Sprintf("%s succeeded although it must be refused", a)})
